@@ -261,6 +261,28 @@ def judge(w, tap, scenario, reach):
             return V('response_not_drawn_from_offer_installed', {'missing_types': str(missing), 'initial': ch['initial']},
                      f'{ch["x_init"]} installed CHILD_SA {ch["spi_init"].hex()}/{ch["spi_resp"].hex()} although the response proposal '
                      f'{sorted(tset(c))} is not drawn from its offer {[sorted(tset(p)) for p in ch["offer"]]} (transform types missing: {missing})')
+    # ---- what is installed IS the chosen suite: algorithm and key length of every NEWSA of a negotiated CHILD_SA are those of the proposal
+    #      in the response (the suite actually in use must be in both offers, not only the one announced)
+    from sim.childcheck import quad, alg
+    from sim.kernel import K
+    names = {2: ('hmac(sha1)', 160), 12: ('hmac(sha256)', 256), 14: ('hmac(sha512)', 512)}
+    if not scenario.get('byz'):
+        idx = {n: newsa_index(node) for n, node in w.nodes.items()}
+        for ch in tap.children:
+            q = quad(w, ch, idx)
+            if q is None:
+                continue
+            for who, rec in zip((ch['x_init'] + ' outbound', ch['x_resp'] + ' inbound', ch['x_init'] + ' inbound', ch['x_resp'] + ' outbound'), q):
+                if rec is None:
+                    continue
+                reach['installed_suites_compared'] = reach.get('installed_suites_compared', 0) + 1
+                c, a = alg(rec, K['XFRMA_ALG_CRYPT']), alg(rec, K['XFRMA_ALG_AUTH'])
+                got = ((c[0], c[1]) if c else None, (a[0], a[1]) if a else None)
+                want = (('cbc(aes)', ch['encr_bits']) if ch['proto'] == R.PROTO_ESP else None, names.get(ch['integ']))
+                if got != want:
+                    return V('installed_suite_is_not_the_chosen_one', {'role': who.split()[1], 'which': 'encr' if got[0] != want[0] else 'integ'},
+                             f'{who}: CHILD_SA {ch["spi_init"].hex()}/{ch["spi_resp"].hex()} was negotiated as {want} (response proposal) but the SA '
+                             f'handed to the kernel uses {got}')
     # ---- a refused negotiation installs nothing: every NEWSA belongs to a negotiation the wiretap saw succeed
     ok_spis = {c['spi_init'] for c in tap.children} | {c['spi_resp'] for c in tap.children}
     if not any(s.opaque for s in tap.sessions.values()):
